@@ -427,3 +427,60 @@ fn dump_item(item: &Item, ctx: &mut LowerCtx<'_>) -> ItemDump {
         types: types.printed,
     }
 }
+
+/// For every item: the variables that are written before dead-code
+/// elimination but by no block that survives it, as (printed variable,
+/// printed label of the first block that wrote it). A drop of such a
+/// variable in the surviving code releases something that no path ever
+/// initialises; the label tells which construct the variable belongs to.
+pub fn eliminated_definitions(
+    tree: FileTree,
+    rt: &Runtime<NoCtx>,
+) -> Result<Vec<(String, Vec<(String, String)>)>, RotoReport> {
+    let checked = tree.parse()?.typecheck(rt)?;
+    Ok(checked.verif_c03_eliminated_definitions())
+}
+
+fn written(item: &Item) -> Vec<(Var, LabelRef)> {
+    let mut out: Vec<(Var, LabelRef)> = Vec::new();
+    for b in &item.blocks {
+        for i in &b.instructions {
+            let v = match i {
+                Instruction::Assign { to, .. } => &to.var,
+                Instruction::SetDiscriminant { to, .. } => to,
+                _ => continue,
+            };
+            if !out.iter().any(|(w, _)| w == v) {
+                out.push((v.clone(), b.label));
+            }
+        }
+    }
+    out
+}
+
+pub(crate) fn eliminated_definitions_of(
+    before: &Mir,
+    after: &Mir,
+    type_info: &crate::typechecker::info::TypeInfo,
+    label_store: &crate::label::LabelStore,
+) -> Vec<(String, Vec<(String, String)>)> {
+    before
+        .items
+        .iter()
+        .zip(&after.items)
+        .map(|(b, a)| {
+            let printer = IrPrinter {
+                type_info,
+                label_store,
+                scope: Some(b.scope),
+            };
+            let live = written(a);
+            let gone = written(b)
+                .into_iter()
+                .filter(|(v, _)| !live.iter().any(|(w, _)| w == v))
+                .map(|(v, l)| (v.print(&printer), l.print(&printer)))
+                .collect();
+            (b.name.as_str().to_string(), gone)
+        })
+        .collect()
+}
